@@ -75,6 +75,9 @@ func TestDrv_C05(t *testing.T) {
 	for ci, c := range cfgs {
 		rt := &stressRT{enter: map[uint64]time.Duration{}, exit: map[uint64]time.Duration{}, jitter: c.jitter, faults: ci%2 == 1}
 		opts := []func(*vegeta.Attacker){vegeta.Client(&http.Client{Transport: rt}), vegeta.Workers(c.workers)}
+		if ci%3 == 1 { // options given before Client configure a client that Client replaces: whatever they do, latencies stay true
+			opts = append([]func(*vegeta.Attacker){vegeta.Timeout(30 * time.Microsecond), vegeta.KeepAlive(false), vegeta.HTTP2(false)}, opts...)
+		}
 		if c.maxw > 0 {
 			opts = append(opts, vegeta.MaxWorkers(c.maxw))
 		}
